@@ -15,6 +15,7 @@ import (
 	"context"
 	"crypto/x509"
 	"encoding/json"
+	"encoding/pem"
 	"errors"
 	"fmt"
 	"os"
@@ -678,6 +679,34 @@ func child(batch int, seed int64, tier, outDir string) {
 				ps.SignBlob(ctx, func(alg digest.Algorithm) (ocispec.Descriptor, error) { return blobDesc, nil }, notation.SignerSignOptions{SignatureMediaType: f})
 				ps.PluginAnnotations()
 			})
+		case ep == 18 && i%3 == 2: // signer construction from hostile key / certificate files
+			keyPEM, _ := x509.MarshalPKCS8PrivateKey(good.Key)
+			kp := pemBlock("PRIVATE KEY", keyPEM)
+			cp := append(lib.PEMCert(good.Cert), lib.PEMCert(good.Root().Cert)...)
+			switch rng.Intn(5) {
+			case 0:
+				kp = mutateBytes(rng, kp)
+			case 1:
+				cp = mutateBytes(rng, cp)
+			case 2:
+				kp, cp = cp, kp
+			case 3:
+				cp = lib.PEMCert(good.Root().Cert) // chain that does not match the key
+			}
+			in := append(append([]byte{}, kp...), cp...)
+			run("signer from key/certificate files", id, in, func() {
+				kf, cf := filepath.Join(cfgDir, "k.pem"), filepath.Join(cfgDir, "c.pem")
+				os.WriteFile(kf, kp, 0o600)
+				os.WriteFile(cf, cp, 0o600)
+				if sg, err := signer.NewGenericSignerFromFiles(kf, cf); err == nil && sg != nil {
+					sg.Sign(ctx, desc, notation.SignerSignOptions{SignatureMediaType: lib.Formats[rng.Intn(2)]})
+				}
+				signer.NewFromFiles(kf, cf)
+				signer.NewGenericSignerFromFiles(kf, filepath.Join(cfgDir, "missing.pem"))
+				signer.NewGenericSigner(nil, nil)
+				signer.NewGenericSigner(good.Key, nil)
+				signer.NewPluginSigner(nil, "", nil)
+			})
 		case ep == 18 && i%3 == 1: // every way to configure the revocation validators x constructors, with a countersigned envelope
 			f := lib.Formats[rng.Intn(2)]
 			in := stamped[f]
@@ -789,6 +818,10 @@ func child(batch int, seed int64, tier, outDir string) {
 	}
 	res.Distinct = res.Cases
 	flush()
+}
+
+func pemBlock(typ string, der []byte) []byte {
+	return pem.EncodeToMemory(&pem.Block{Type: typ, Bytes: der})
 }
 
 func sortStrings(s []string) {
